@@ -41,7 +41,8 @@ HAND = [
     ("$[?# == 0]", "objarr", {}), ("$[?# == 'a']", "obj2", {}), ("$[?@.a == _.k]", "objarr", {}), ("$[?_.a[0] == @.a]", "objarr", {}),
     ("$[?@.a in _.a]", "objarr", {}), ("$.~", "obj2", {}), ("$[~, 'a']", "obj2", {}), ("$..~", "nest1", {}), ("$.*.~", "nest1", {}),
     ("$[?@.a == undefined]", "objarr", {}), ("$[?@.b != missing]", "objarr", {}), ("$[?@.a <> 1]", "objarr", {}),
-    ("$[?@.a contains 1]", "nest2", {}), ("$[?'a' in @]", "nest2", {}), ("$[?@.a == nil || @.a == None]", "objarr", {"leaf": "nbi"}),
+    ("$[?@.a contains 1]", "nest2", {}), ("$[?@.b contains (@.a < 2)]", "objarr", {"leaf": "boolint"}), ("$[?[true, false] contains (@.a == 1)]", "objarr", {"leaf": "boolint"}),
+    ("$[?(@.a == 1) in [true]]", "objarr", {"leaf": "boolint"}), ("$[?@.b in (1 == 1)]", "objarr", {"leaf": "boolint"}), ("$[?[false] contains (@.a =~ /a/)]", "objarr", {"strs": ["a", "b"]}), ("$[?'a' in @]", "nest2", {}), ("$[?@.a == nil || @.a == None]", "objarr", {"leaf": "nbi"}),
     ("a.b", "nest1", {}), ("$[a, b]", "obj2", {}), ("$.a[0:2:1]", "nest1", {}), ("$[0::-1]", "arr", {}), ("$[:0:-1]", "arr", {}), ("$[0:0]", "arr", {}), ("$[::0]", "arr", {}),
     ("$[?(!(@.a == 1)) == true]", "objarr", {}), ("$[?!((@.a == 1) == (@.b == 2))]", "objarr", {"leaf": "int"}), ("$[?!((!@.a) == true)]", "objarr", {}),
     ("$[?@.a == 1.0e16]", "objarr", {"strs": [10**16, 1e16, 1, "1e16"]}), ("$[?@.a == 1.0e20]", "objarr", {"strs": [10**20, 1e20, 100.0, 1e2]}),
